@@ -548,6 +548,12 @@ func (c *evalCtx) selector(x *ast.SelectorExpr) SV {
 						}
 						return SV{t: k.Type(), term: enc.constValTerm(k.Val(), k.Type())}
 					}
+					if v, ok := obj.(*types.Var); ok {
+						// package-level variable of an imported package: its current value,
+						// under the same heap key the code's own loads use
+						key := "G_" + mangle(imp.Name()+"."+x.Sel.Name)
+						return SV{t: v.Type(), term: enc.heapGet(c.heap, key, enc.R.sortOf(v.Type()))}
+					}
 					cfail("unsupported qualified identifier %s.%s", id.Name, x.Sel.Name)
 				}
 			}
